@@ -2,6 +2,7 @@ package net
 
 import (
 	"math/rand"
+	"sync"
 	"time"
 
 	"github.com/google/uuid"
@@ -84,7 +85,9 @@ func (ne *SimulatedBinaryNetworkEndpoint) Close() error {
 }
 
 type SimulatedNetwork struct {
-	latency   int
+	latency int
+	// mu guards endpoints: nodes register while others already send
+	mu        sync.RWMutex
 	endpoints map[string]chan commontypes.BinaryMessageWithSender
 }
 
@@ -107,13 +110,19 @@ func (sn *SimulatedNetwork) NewFactory() *SimulatedBinaryNetworkEndpointFactory 
 
 func (sn *SimulatedNetwork) RegisterEndpoint(id string) chan commontypes.BinaryMessageWithSender {
 	ch := make(chan commontypes.BinaryMessageWithSender, 1000)
+
+	sn.mu.Lock()
 	sn.endpoints[id] = ch
+	sn.mu.Unlock()
 
 	return ch
 }
 
 func (sn *SimulatedNetwork) SendTo(sender uint8, payload []byte, to string) {
+	sn.mu.RLock()
 	ch, ok := sn.endpoints[to]
+	sn.mu.RUnlock()
+
 	if ok {
 		msg := commontypes.BinaryMessageWithSender{
 			Msg:    payload,
@@ -134,7 +143,14 @@ func (sn *SimulatedNetwork) Broadcast(sender uint8, payload []byte) {
 	// simulate network delay
 	<-time.After(time.Duration(rn) * time.Millisecond)
 
+	sn.mu.RLock()
+	channels := make([]chan commontypes.BinaryMessageWithSender, 0, len(sn.endpoints))
 	for _, ch := range sn.endpoints {
+		channels = append(channels, ch)
+	}
+	sn.mu.RUnlock()
+
+	for _, ch := range channels {
 		msg := commontypes.BinaryMessageWithSender{
 			Msg:    payload,
 			Sender: commontypes.OracleID(sender),
